@@ -124,8 +124,10 @@ KindOfKey(kind, key) == LET K == KeysOf(kind)
                             i == CHOOSE j \in 1..Len(K) : K[j][1] = key IN K[i][2]
 Theorems == phase = 1 =>
   IF c.op = "rt" THEN \A key \in DOMAIN c.cls : key = "#txs" \/ ClassTheorems(KindOfKey(c.kind, key), c.cls[key])
-  ELSE /\ ParseRef(c.kind, c.present, c.hpresent, c.txs) \in {"object", "error"}
-       /\ (c.kind = "tx" /\ c.present = TxNums => ParseRef(c.kind, c.present, c.hpresent, c.txs) = "object")
+  ELSE /\ ParseRef(c.kind, c.present, c.hpresent, c.txs, c.tv) \in {"object", "error"}
+       /\ (c.kind = "tx" /\ c.present = TxNums => ParseRef(c.kind, c.present, c.hpresent, c.txs, c.tv) = "object")
+       /\ (c.kind = "header" /\ c.present = HeaderNums /\ c.tv = "valid"
+             => ParseRef(c.kind, c.present, c.hpresent, c.txs, c.tv) = "object")
 
 Dump == phase = 1 => PrintT(<<"CASE", ToJson(c)>>)
 =============================================================================
